@@ -371,6 +371,16 @@ SEMH = [
        ["Acquire::poll"]),
     KS("C18.acquire.poll_granted_open", "c18_acquire_poll_granted_open", "same, semaphore still open", ["Acquire::poll"], tier="thorough"),
     KS("C18.acquire.poll_ungranted_closed", "c18_acquire_poll_ungranted_closed", "an ungranted waiter on a closed semaphore completes with Err", ["Acquire::poll"], tier="thorough"),
+    KS("C18.acquire.poll_first_fair_blocks", "c18_acquire_poll_first_fair_blocks",
+       "first poll, fair, 0 permits, request 1, empty queue (one concrete configuration): Pending, enqueued at the tail with the POLLER's identity "
+       "and waker, permits untouched; exactly one choice point (joining an ordered queue does not commute)", ["Acquire::poll"]),
+    KS("C18.acquire.poll_first_fair_succeeds", "c18_acquire_poll_first_fair_succeeds",
+       "first poll, fair, 1 permit, request 1: Ready(Ok), exactly 1 permit removed, not queued; exactly one choice point", ["Acquire::poll"]),
+    KS("C18.acquire.poll_first_unfair_blocks", "c18_acquire_poll_first_unfair_blocks",
+       "first poll, unfair, 1 permit, request 2: Pending and enqueued; the choice point is omitted (blocking on an unordered set commutes)",
+       ["Acquire::poll"], tier="thorough"),
+    KS("C18.acquire.poll_first_unfair_succeeds", "c18_acquire_poll_first_unfair_succeeds",
+       "first poll, unfair, 2 permits, request 1: Ready(Ok), exactly 1 removed; one choice point", ["Acquire::poll"], tier="thorough"),
     KS("C18.acquire.drop_granted", "c18_acquire_drop_granted", "dropping a granted, uncompleted acquisition returns its permits", ["Acquire::drop"]),
     KS("C18.acquire.drop_queued", "c18_acquire_drop_queued", "dropping a queued acquisition removes it from the queue, permits unchanged", ["Acquire::drop"]),
     KS("C18.acquire.drop_completed", "c18_acquire_drop_completed", "dropping a completed acquisition changes nothing", ["Acquire::drop"], tier="thorough"),
@@ -384,10 +394,14 @@ PROPS["C18"] = {
     "assumptions": [A_BT, A_DUMMY, A_TLS, A_HEAP, A_SWITCH,
                     "lane L mirrors the Kb contracts by inspection (both texts are in the evidence samples)"],
     "not_decided": ["unbounded queue lengths on the real code (lane Kb is bounded; lane L is about the contracts)",
-                    "first poll of a fresh acquisition (enqueue at the tail, identity refresh, legality of the omitted choice point): the harnesses "
-                    "(c18_acquire_poll_first_*) run out of memory and were withdrawn"],
+                    "first poll of a fresh acquisition: only four concrete configurations (a symbolic configuration exhausts memory)"],
 }
 PROPS["C02"]["kani"] += [x for x in SEMH if x["harness"] in ("c18_sem_try_acquire_fair", "c18_acquire_poll_granted_then_closed")]
+PROPS["C02"]["kani"].append(
+    KS("C02.acquire.first_poll_fair_blocking_is_choice_point", "c02_acquire_first_poll_fair_blocking",
+       "a first poll that will block on a STRICTLY FAIR semaphore takes exactly one choice point BEFORE it joins the queue, also when the queue "
+       "is still empty (at the choice point the queue is observed empty): joining an ordered queue does not commute with another task joining it",
+       ["Acquire::poll"]))
 PROPS["C02"]["overlay_files"] = SEM_OVERLAY
 PROPS["C02"]["kani"].append(EXEC["yield"])
 
